@@ -19,26 +19,26 @@ import (
 // WorkPlan: modules with managed work that are then stopped (C05), optionally
 // with panicking executions (C06).
 type WorkPlan struct {
-	Mgmt     bool    `json:"mgmt,omitempty"`
-	Mods     []WMod  `json:"mods"`
-	Items    []WItem `json:"items"`
-	Settle   int     `json:"settle"`              // ladder index: how long the client waits before stopping
-	StopMgmt []int   `json:"stop_mgmt,omitempty"` // with Mgmt: modules disabled before ManageModules (empty: Shutdown directly)
-	Late     bool    `json:"late,omitempty"`      // some drain delays exceed the stop timeout
-	Post     bool    `json:"post,omitempty"`      // after the stop: submit work to stopped modules
-	Limit    int     `json:"limit"`               // microtask concurrency limit
-	Requeue  bool    `json:"requeue,omitempty"`   // C06: re-queue a task after its execution panicked
-	RequeueFast bool `json:"requeue_fast,omitempty"` // ... as soon as every task has run once, and expect the re-run promptly
-	NoChan   bool    `json:"no_chan,omitempty"`   // C06: no error reporting channel is set (and stderr reporting is off): only the returned errors are checked
-	Shutdown2 bool   `json:"shutdown2,omitempty"` // a second caller invokes Shutdown while the first call is in progress; the clauses about the return of Shutdown hold for both
-	Warm     bool    `json:"warm,omitempty"`      // C05 with management: all modules are stopped and started once before the workload, with a worker started on each stopped module that outlives the restart
+	Mgmt        bool    `json:"mgmt,omitempty"`
+	Mods        []WMod  `json:"mods"`
+	Items       []WItem `json:"items"`
+	Settle      int     `json:"settle"`                 // ladder index: how long the client waits before stopping
+	StopMgmt    []int   `json:"stop_mgmt,omitempty"`    // with Mgmt: modules disabled before ManageModules (empty: Shutdown directly)
+	Late        bool    `json:"late,omitempty"`         // some drain delays exceed the stop timeout
+	Post        bool    `json:"post,omitempty"`         // after the stop: submit work to stopped modules
+	Limit       int     `json:"limit"`                  // microtask concurrency limit
+	Requeue     bool    `json:"requeue,omitempty"`      // C06: re-queue a task after its execution panicked
+	RequeueFast bool    `json:"requeue_fast,omitempty"` // ... as soon as every task has run once, and expect the re-run promptly
+	NoChan      bool    `json:"no_chan,omitempty"`      // C06: no error reporting channel is set (and stderr reporting is off): only the returned errors are checked
+	Shutdown2   bool    `json:"shutdown2,omitempty"`    // a second caller invokes Shutdown while the first call is in progress; the clauses about the return of Shutdown hold for both
+	Warm        bool    `json:"warm,omitempty"`         // C05 with management: all modules are stopped and started once before the workload, with a worker started on each stopped module that outlives the restart
 }
 
 // WMod is a module of a WorkPlan.
 type WMod struct {
-	Deps      []int `json:"deps,omitempty"`
-	StartDur  int   `json:"start_dur,omitempty"`
-	StopDur   int   `json:"stop_dur,omitempty"`
+	Deps      []int  `json:"deps,omitempty"`
+	StartDur  int    `json:"start_dur,omitempty"`
+	StopDur   int    `json:"stop_dur,omitempty"`
 	LifePanic [3]int `json:"life_panic,omitempty"` // C06: panic kind in prep/start/stop (0 none)
 	StopErr   bool   `json:"stop_err,omitempty"`   // the stop routine returns an error
 	StartFail bool   `json:"start_fail,omitempty"` // C05 with management: the first start attempt fails (after the work launched from it has begun); a second management pass starts the module
@@ -46,17 +46,17 @@ type WMod struct {
 
 // WItem is one piece of managed work.
 type WItem struct {
-	Mod    int    `json:"mod"`
-	Kind   string `json:"kind"` // worker runworker svc task tasksched mthigh mtmed mtlow mtrunhigh mtrunmed mtrunlow sighigh sigmed siglow hook
-	AtStart bool  `json:"at_start,omitempty"` // launched from the module's start routine
-	PanicTwice bool `json:"panic_twice,omitempty"` // the second invocation (restart of a service worker, re-run of a task) panics again, with the same value
-	Dur    int    `json:"dur"`   // durLadder index; -1 = runs until cancelled
-	Drain  int    `json:"drain"` // drainLadder index: keeps running that long after seeing the cancellation
-	Ret    int    `json:"ret,omitempty"` // 0 nil, 1 ctx error, 2 other error, 3 restart-now (svc)
-	Panic  int    `json:"panic,omitempty"` // C06 panic kind, 0 none
-	EvMod  int    `json:"ev_mod,omitempty"` // hook: module on which the event is triggered
-	Done   int    `json:"done,omitempty"`   // signal variants: how many times done is called (>=1)
-	Backoff int   `json:"backoff,omitempty"` // svc: backoffLadder index of the restart back-off
+	Mod        int    `json:"mod"`
+	Kind       string `json:"kind"`                  // worker runworker svc task tasksched mthigh mtmed mtlow mtrunhigh mtrunmed mtrunlow sighigh sigmed siglow hook
+	AtStart    bool   `json:"at_start,omitempty"`    // launched from the module's start routine
+	PanicTwice bool   `json:"panic_twice,omitempty"` // the second invocation (restart of a service worker, re-run of a task) panics again, with the same value
+	Dur        int    `json:"dur"`                   // durLadder index; -1 = runs until cancelled
+	Drain      int    `json:"drain"`                 // drainLadder index: keeps running that long after seeing the cancellation
+	Ret        int    `json:"ret,omitempty"`         // 0 nil, 1 ctx error, 2 other error, 3 restart-now (svc)
+	Panic      int    `json:"panic,omitempty"`       // C06 panic kind, 0 none
+	EvMod      int    `json:"ev_mod,omitempty"`      // hook: module on which the event is triggered
+	Done       int    `json:"done,omitempty"`        // signal variants: how many times done is called (>=1)
+	Backoff    int    `json:"backoff,omitempty"`     // svc: backoffLadder index of the restart back-off
 }
 
 var backoffLadder = []time.Duration{time.Second, 20 * time.Second, 50 * time.Second, 0 /* the library's default */}
@@ -218,18 +218,18 @@ func genWork(rng *rand.Rand, tier, prop string) *WorkPlan {
 
 // irec is what the harness observed about one execution of an item function.
 type irec struct {
-	Item      int
-	Inv       int
-	BeginSeq  uint64
-	BeginT    time.Duration
+	Item          int
+	Inv           int
+	BeginSeq      uint64
+	BeginT        time.Duration
 	CtxErrAtBegin bool
-	SawCancel bool
-	CancelT   time.Duration
-	EndSeq    uint64
-	EndT      time.Duration
-	Ended     bool
-	Panicked  bool
-	ctx       context.Context
+	SawCancel     bool
+	CancelT       time.Duration
+	EndSeq        uint64
+	EndT          time.Duration
+	Ended         bool
+	Panicked      bool
+	ctx           context.Context
 }
 
 type runRet struct {
@@ -239,38 +239,38 @@ type runRet struct {
 }
 
 type workState struct {
-	p    *WorkPlan
-	rc   *simkit.RunCtx
-	prop string
-	mods []*modules.Module
-	evs  []ev // lifecycle events
-	inv  [][3]int
-	recs []*irec
-	itemInv []int
-	rets []runRet
-	tasks map[int]*modules.Task
-	fastRequeueT time.Duration
-	startT, stopT time.Duration
-	errCh chan *modules.ModuleError
-	panicsFired int
-	panicVals   []any
-	lifePanics  [3]int // fired lifecycle panics per phase
+	p                 *WorkPlan
+	rc                *simkit.RunCtx
+	prop              string
+	mods              []*modules.Module
+	evs               []ev // lifecycle events
+	inv               [][3]int
+	recs              []*irec
+	itemInv           []int
+	rets              []runRet
+	tasks             map[int]*modules.Task
+	fastRequeueT      time.Duration
+	startT, stopT     time.Duration
+	errCh             chan *modules.ModuleError
+	panicsFired       int
+	panicVals         []any
+	lifePanics        [3]int // fired lifecycle panics per phase
 	startErr, stopErr error
-	mgmtErrs []error
-	stopBeginSeq map[int]uint64 // latest stop begin per module
-	stopBeginT   map[int]time.Duration
-	stopEndT     map[int]time.Duration
-	offlineSeenT map[int]time.Duration // first time the module was seen offline after its stop began
-	postRan   []string
-	postCtxOK []string
+	mgmtErrs          []error
+	stopBeginSeq      map[int]uint64 // latest stop begin per module
+	stopBeginT        map[int]time.Duration
+	stopEndT          map[int]time.Duration
+	offlineSeenT      map[int]time.Duration // first time the module was seen offline after its stop began
+	postRan           []string
+	postCtxOK         []string
 	shutdownReturnedT time.Duration
-	shutdownCalled bool
-	stopPhase bool
-	pending   []pendingObs
-	reported  []*modules.ModuleError
-	finalStatus *modules.Status
-	finalMicro  int32
-	requeued  map[int]bool
+	shutdownCalled    bool
+	stopPhase         bool
+	pending           []pendingObs
+	reported          []*modules.ModuleError
+	finalStatus       *modules.Status
+	finalMicro        int32
+	requeued          map[int]bool
 }
 
 func (s *workState) lifecycle(i, ph int) func() error {
@@ -717,10 +717,10 @@ func (s *workState) timely(i int) bool {
 // violation depends on whether that work turns out to return within the stop
 // timeout, which is only known at the end of the run.
 type pendingObs struct {
-	Mod  int
-	At   string
-	Rec  *irec
-	Seq  uint64 // stop begin this observation belongs to
+	Mod int
+	At  string
+	Rec *irec
+	Seq uint64 // stop begin this observation belongs to
 }
 
 // checkStopped is clause 2 for module i at one of the three observation points.
